@@ -38,20 +38,30 @@ func dfpnLine(att tak.Color, entries int, truth string, p *tak.Position) string 
 // a run that does not come back is stopped by pulling its table away (the next table access panics
 // inside the watchdog's goroutine), and the position is not used.
 func dfpnFinishes(att tak.Color, entries int, p *tak.Position, d time.Duration) bool {
+	_, ok := dfpnWork(att, entries, p, d)
+	return ok
+}
+
+// dfpnWork: the work count of the run, and whether it came back at all.
+func dfpnWork(att tak.Color, entries int, p *tak.Position, d time.Duration) (uint64, bool) {
 	solver := prove.NewDFPN(&prove.DFPNConfig{Attacker: att, TableMem: int64(entries) * prove.VerifEntrySize()})
-	done := make(chan bool, 1)
+	type res struct {
+		work uint64
+		ok   bool
+	}
+	done := make(chan res, 1)
 	go func() {
 		defer func() {
 			if r := recover(); r != nil {
-				done <- false
+				done <- res{0, false}
 			}
 		}()
-		solver.Prove(p)
-		done <- true
+		_, st := solver.Prove(p)
+		done <- res{st.Work + st.Miss + st.Hits, true}
 	}()
 	select {
-	case ok := <-done:
-		return ok
+	case r := <-done:
+		return r.work, r.ok
 	case <-time.After(d):
 		solver.VerifAbort()
 		select {
@@ -62,8 +72,23 @@ func dfpnFinishes(att tak.Color, entries int, p *tak.Position, d time.Duration) 
 				fmt.Fprintf(os.Stderr, "dfpn stuck without table access: att=%s entries=%d pos=%s\n", colorStr(att), entries, encPos(p))
 			}
 		}
-		return false
+		return 0, false
 	}
+}
+
+// the model is some fifty times slower than the real solvers: runs beyond these sizes are left out
+func (c *Ctx) pnBudget() uint64 {
+	if c.Thorough() {
+		return 200000
+	}
+	return 12000
+}
+
+func (c *Ctx) dfpnBudget() uint64 {
+	if c.Thorough() {
+		return 300000
+	}
+	return 15000
 }
 
 func tagResult(c *Ctx, kind string, out string) {
@@ -84,6 +109,10 @@ func emitSolverOps(c *Ctx, p *tak.Position, truth string, dfpnOK bool, nPN, nDF 
 		a := randPNArgs(r)
 		if truth[0] == 'b' && a.maxNodes == 0 {
 			a.maxNodes = 600 // larger positions: never search without a node limit
+		}
+		if _, st := runPN(a, p); st.Nodes > c.pnBudget() {
+			c.Count("pn.skipped-too-large")
+			continue
 		}
 		out := c.Emit(pnLine(a, truth, p))
 		tagResult(c, "pn", out)
@@ -106,8 +135,13 @@ func emitSolverOps(c *Ctx, p *tak.Position, truth string, dfpnOK bool, nPN, nDF 
 	for i := 0; i < nDF; i++ {
 		att := []tak.Color{tak.NoColor, tak.White, tak.Black}[r.Intn(3)]
 		ent := dfpnEntries[r.Intn(len(dfpnEntries))]
-		if !dfpnFinishes(att, ent, p, 3*time.Second) {
+		w, ok := dfpnWork(att, ent, p, 2*time.Second)
+		if !ok {
 			c.Count("dfpn.skipped-no-return")
+			continue
+		}
+		if w > c.dfpnBudget() {
+			c.Count("dfpn.skipped-too-large")
 			continue
 		}
 		out := c.Emit(dfpnLine(att, ent, truth, p))
@@ -283,6 +317,165 @@ func genC06(c *Ctx) {
 		emitSolverOps(c, last, "b1", true, 1, 2)
 	}
 	lap("finished")
+
+	// (6) one solver / one prover used for several positions, also of different board sizes (larger first:
+	// a pooled position of a smaller board cannot hold a larger one)
+	for k := c.Scale(16, 3200); k > 0; k-- {
+		caseNo++
+		c.Emit(fmt.Sprintf("case %d.%d", c.Shard, caseNo))
+		att := []tak.Color{tak.NoColor, tak.NoColor, tak.White, tak.Black}[r.Intn(4)]
+		ent := dfpnEntries[r.Intn(len(dfpnEntries))]
+		c.Emit(fmt.Sprintf("dfpnnew d %s %d", colorStr(att), ent))
+		pa := randPNArgs(r)
+		if pa.maxNodes == 0 || pa.maxNodes > 200 {
+			pa.maxNodes = 200
+		}
+		c.Emit(fmt.Sprintf("pnnew p %d %d %d %d", pa.maxNodes, b2i(pa.preserve), b2i(pa.pn2), pa.maxDepth))
+		size := 4 + r.Intn(2)
+		if c.Thorough() && r.Chance(1, 4) {
+			size = 6
+		}
+		sizes := map[int]bool{}
+		for i := 0; i < 4; i++ {
+			if i > 0 && size > 3 && r.Chance(1, 2) {
+				size--
+			}
+			sizes[size] = true
+			var all []*tak.Position
+			playout(r, randomConfig(r, size), 6*size*size, func(p *tak.Position) { all = append(all, p) })
+			idx := len(all) - 2 - r.Intn(3)
+			if idx < 2 {
+				continue
+			}
+			p := all[idx]
+			truth := "b2"
+			if size >= 5 {
+				truth = "b1"
+			}
+			// the real solver must come back on this position (own copy: the session's solver is not disturbed)
+			d, _ := c.S.slots["dfpn:d"].(*prove.DFPNSolver)
+			if d != nil && dfpnFinishesOn(d, p, 700*time.Millisecond, c.dfpnBudget()) {
+				out := c.Emit("dfpnuse d " + truth + " " + encPos(p))
+				tagResult(c, "dfpn.reused", out)
+			} else {
+				c.Count("dfpn.reused.skipped")
+				if d == nil || d.VerifTableLen() == 0 {
+					// the solver's table has been pulled away: start a fresh one
+					c.Emit(fmt.Sprintf("dfpnnew d %s %d", colorStr(att), ent))
+				}
+			}
+			out := c.Emit("pnuse p " + truth + " " + encPos(p))
+			tagResult(c, "pn.reused", out)
+		}
+		if len(sizes) > 1 {
+			c.Count("reused.across-sizes")
+		}
+	}
+	lap("reused")
+
+	// (7) very wide positions (tall stacks of the side to move on 7x7/8x8: over a thousand moves), where the
+	// first level of a PN² search passes pn2Threshold before the tree is deep; with and without depth limit
+	for k := c.Scale(16, 800); k > 0; k-- {
+		p := widePosition(r)
+		caseNo++
+		c.Emit(fmt.Sprintf("case %d.%d", c.Shard, caseNo))
+		nm := len(p.AllMoves(nil))
+		c.Count("wide.moves~" + strconv.Itoa(nm/500*500))
+		// depth limit 1: every root move is refuted at once by the cut-off below it, so the whole search
+		// is a few thousand nodes, nearly all of them made in second-level searches (deeper limits cost
+		// hundreds of thousands of nodes here whatever the node limit, which counts live nodes only)
+		a := pnArgs{pn2: true, maxDepth: 1, preserve: r.Chance(1, 2)}
+		out := c.Emit(pnLine(a, "n", p))
+		tagResult(c, "pn.wide", out)
+		if r.Chance(1, 2) {
+			a.pn2 = false
+			out = c.Emit(pnLine(a, "n", p))
+			tagResult(c, "pn.wide", out)
+		}
+	}
+	lap("wide")
+}
+
+// dfpnFinishesOn runs Prove of a *copy-free* probe: a fresh solver with the same configuration cannot stand in
+// for a used one (its table differs), so the session's own solver is probed under the watchdog; when it
+// does not come back it is destroyed and the caller replaces it.
+func dfpnFinishesOn(d *prove.DFPNSolver, p *tak.Position, dur time.Duration, budget uint64) bool {
+	snap := d.VerifSnapshot()
+	done := make(chan bool, 1)
+	go func() {
+		defer func() {
+			if r := recover(); r != nil {
+				done <- false
+			}
+		}()
+		_, st := d.Prove(p)
+		done <- st.Work+st.Miss+st.Hits <= budget
+	}()
+	select {
+	case ok := <-done:
+		d.VerifRestore(snap)
+		return ok
+	case <-time.After(dur):
+		d.VerifAbort()
+		select {
+		case <-done:
+		case <-time.After(2 * time.Second):
+		}
+		return false
+	}
+}
+
+// widePosition: 7x7 or 8x8, two or three tall stacks topped by the side to move's flats or capstone in the
+// interior, a few scattered pieces; the side to move has far more than a thousand moves.
+func widePosition(r *RNG) *tak.Position {
+	for {
+		size := 7 + r.Intn(2)
+		board := make([][]tak.Square, size)
+		for y := range board {
+			board[y] = make([]tak.Square, size)
+		}
+		ply := 20 + r.Intn(40)
+		mover := tak.White
+		if ply%2 == 1 {
+			mover = tak.Black
+		}
+		nst := 2 + r.Intn(2)
+		for i := 0; i < nst; i++ {
+			x, y := 2+r.Intn(size-4), 2+r.Intn(size-4)
+			if board[y][x] != nil {
+				continue
+			}
+			h := size + r.Intn(4)
+			sq := make(tak.Square, h)
+			sq[0] = tak.MakePiece(mover, tak.Flat)
+			for j := 1; j < h; j++ {
+				sq[j] = tak.MakePiece([]tak.Color{tak.White, tak.Black}[r.Intn(2)], tak.Flat)
+			}
+			board[y][x] = sq
+		}
+		for i := 0; i < 3+r.Intn(6); i++ {
+			x, y := r.Intn(size), r.Intn(size)
+			if board[y][x] != nil {
+				continue
+			}
+			kind := tak.Flat
+			if r.Chance(1, 4) {
+				kind = tak.Standing
+			}
+			board[y][x] = tak.Square{tak.MakePiece([]tak.Color{tak.White, tak.Black}[r.Intn(2)], kind)}
+		}
+		p, err := tak.FromSquares(tak.Config{Size: size}, board, ply)
+		if err != nil {
+			continue
+		}
+		if over, _ := p.GameOver(); over {
+			continue
+		}
+		if len(p.AllMoves(nil)) < 1100 {
+			continue
+		}
+		return p
+	}
 }
 
 func init() {
